@@ -205,8 +205,11 @@ plan("C17", "c17.py", "logging programs on one MemoryLogger (deferred children, 
      "direct messages (own level prefix, no action status) and the direct child actions (first message two levels down ending in 1) in list "
      "order, with the last own start / end message; LoggedMessage.of_type returns exactly the messages of the type; assertContainsFields passes "
      "iff the message restricted to the expected keys equals the expected fields; assertHasMessage succeeds iff the first entry contains the "
-     "fields and returns it. Agreement with the parser's tree, descendants / type_tree pre-order and assertHasAction are decided by the bounded "
-     "driver only.",
+     "fields and returns it; LoggedAction.of_type returns the very objects fromMessages built, in call order, the first of them exposing its own "
+     "start and end message; assertHasAction succeeds iff that first entry's end status equals the expected outcome and its start / end "
+     "messages contain the expected fields, returns it, and otherwise raises AssertionError (anything else provably comes out of of_type). "
+     "Agreement with the parser's tree and the descendants / type_tree pre-order (recursive generators over the result tree) are decided by "
+     "the bounded driver only.",
      "Trusted: unittest.TestCase.assertEqual / assertTrue semantics, pyrsistent PClass construction, encoding assumptions. Termination of the "
      "fromMessages recursion is not proved (depth bounded by the data). Known finding C17-F1 (of_type raises on an unfinished action).")
 
